@@ -8,6 +8,9 @@
  * and checks the postconditions and W again.  Bound: key length <= VG_KMAX (buffers are real). */
 #include "/repo/mtbl/writer.c"
 #include "spec/ghost.h"
+/* Vector growth is excluded from this capped harness (the buffers are created large enough): realloc is a cut point.
+ * If a run reaches it the auxiliary obligation below fails (=> undecided, never silent).  Growth itself: group vec_grow. */
+void *realloc(void *p, size_t n) { VG_A(0, "no vector growth expected in this capped harness"); __CPROVER_assume(0); return p; }
 
 #ifndef VG_KMAX
 #define VG_KMAX 4
@@ -50,8 +53,14 @@ void block_builder_add(struct block_builder *b, const uint8_t *key, size_t len_k
 	for (size_t i = 0; i < VG_KMAX + 4; i++) if (i < len_key) b->key[i] = key[i];
 	if (len_val <= 10) for (size_t i = 0; i < 10; i++) if (i < len_val) b->val[i] = val[i];   /* index values: varint64 */
 	b->empty = 0;
-	size_t e = nondet_size();     /* builder contract: the estimate grows by at most 15 + len_key + len_val */
-	__CPROVER_assume(e >= b->est && e - b->est <= 15 + len_key + len_val);
+	/* builder contract (proved on the real block_builder_add, groups bb_*): the estimate grows by the entry header
+	 * (three varints: shared, non_shared, value length), the non-shared key bytes, the value bytes, and 4 bytes when
+	 * the entry opens a new restart run (then shared == 0). */
+	size_t e = nondet_size();
+	unsigned vk = 1, vv = 1; { uint64_t t = len_key; while (t >= 128) { t >>= 7; vk++; } t = len_val; while (t >= 128) { t >>= 7; vv++; } }
+	size_t hdr_restart = 1 + vk + vv + 4, hdr_shared = 2 * vk + vv;
+	size_t hdr = hdr_restart > hdr_shared ? hdr_restart : hdr_shared;
+	__CPROVER_assume(e >= b->est && e - b->est <= hdr + len_key + len_val);
 	b->est = e;
 }
 static uint8_t *vg_fin_buf; static size_t vg_fin_len; static struct block_builder *vg_fin_who;
@@ -107,9 +116,8 @@ void threadpool_dispatch(struct threadpool *pool, struct result_handler *rh, boo
 static ubuf *vg_any_ubuf(size_t max_n)
 {
 	ubuf *u = malloc(sizeof(*u));
-	u->_n_alloced = nondet_size(); u->_n = nondet_size(); u->_hint = nondet_size();
-	__CPROVER_assume(u->_n_alloced >= 1 && u->_n_alloced <= 2 * VG_KMAX && u->_n <= u->_n_alloced && u->_n <= max_n);
-	__CPROVER_assume(u->_hint >= 1 && u->_hint <= 2 * VG_KMAX);
+	u->_n_alloced = 2 * VG_KMAX; u->_n = nondet_size(); u->_hint = 2 * VG_KMAX;
+	__CPROVER_assume(u->_n <= u->_n_alloced && u->_n <= max_n);
 	u->_v = malloc(u->_n_alloced);
 	u->_p = u->_v + u->_n;
 	return u;
@@ -142,7 +150,7 @@ static struct mtbl_writer *vg_any_writer(_Bool pooled)
 	w->data = &vg_data_bb; w->index = &vg_index_bb;
 	vg_data_bb.est = nondet_size(); vg_data_bb.empty = nondet_bool();
 	vg_index_bb.est = nondet_size(); vg_index_bb.empty = nondet_bool();
-	__CPROVER_assume(vg_data_bb.est <= ((size_t)1 << 40) && vg_index_bb.est <= ((size_t)1 << 40) && vg_data_bb.est >= 8 && vg_index_bb.est >= 8);
+	__CPROVER_assume(vg_data_bb.est <= ((size_t)1 << 31) && vg_index_bb.est <= ((size_t)1 << 31) && vg_data_bb.est >= 8 && vg_index_bb.est >= 8);   /* blocks below the 4 GiB (64-bit restart array) regime */
 	w->last_key = vg_any_ubuf(VG_KMAX);
 	w->closed = 0;
 	w->pool = NULL; w->rhandler = NULL; w->opt.pool = NULL;
@@ -168,7 +176,7 @@ void h_writer_add_step(void)
 	_Bool in_pooled = nondet_bool();
 	struct mtbl_writer *w = vg_any_writer(in_pooled);
 	uint8_t in_key[VG_KMAX]; size_t in_lk = nondet_size(), in_lv = nondet_size();
-	__CPROVER_assume(in_lk <= VG_KMAX && in_lv <= ((size_t)1 << 32));
+	__CPROVER_assume(in_lk <= VG_KMAX && in_lv <= ((size_t)1 << 31));
 	for (int i = 0; i < VG_KMAX; i++) in_key[i] = nondet_u8();
 	uint8_t *in_val = malloc(10);
 	/* snapshot */
@@ -203,8 +211,12 @@ void h_writer_add_step(void)
 	     "an accepted add counts one entry, its key bytes and its value bytes");
 	VG_P("C08,C01", vg_data_bb.adds == 1 && vg_data_bb.key_ptr == in_key && vg_data_bb.len_key == in_lk && vg_data_bb.val_ptr == in_val && vg_data_bb.len_val == in_lv,
 	     "the entry is handed to the data block builder exactly once, with the caller's key and value");
-	if (!cut || empty0) {
-		VG_P("C09", vg_fpos == fpos0 && vg_data_bb.finishes == 0 && vg_index_bb.adds == 0, "no block is closed unless the next entry (with 15 bytes of header allowance) would reach the block size");
+	_Bool closed = vg_data_bb.finishes > 0;
+	VG_P("C09", !closed || cut, "a block is closed only when the next entry (allowing 15 bytes of entry header) would bring it to the block size");
+	VG_P("C09", !closed || !empty0, "an empty block is never written");
+	VG_P("C09", closed || empty0 || vg_data_bb.est <= w->opt.block_size, "no block holding more than one entry exceeds the configured block size");
+	if (!closed) {
+		VG_P("C09", vg_fpos == fpos0 && vg_index_bb.adds == 0, "nothing is written and no index entry is made while the block stays open");
 		VG_P("C10", w->m.count_data_blocks == m0.count_data_blocks && w->m.bytes_data_blocks == m0.bytes_data_blocks && w->pending_offset == pend0, "block statistics unchanged when no block is written");
 	} else {
 		VG_REACH("block cut reachable");
